@@ -179,6 +179,12 @@ def mp_item(item):
         return {'t': 'f32', 'v': int(item[1], 16)}
     if t == 's':
         return {'t': 'str', 'v': item[1].encode('utf-8')}
+    if t == 'x':
+        # application-defined extension (MessagePack only): ('x', type, payload bytes, optional wanted header form)
+        d = {'t': 'ext', 'v': (item[1], item[2])}
+        if len(item) > 3 and item[3]:
+            d['want'] = item[3]
+        return d
     if t == 'a':
         return {'t': 'array', 'v': [mp_item(x) for x in item[1]]}
     if t == 'o':
